@@ -53,6 +53,7 @@ class SpecFail(BaseException):
 
 
 CUR = None  # the active Explorer (one per process)
+EQ_HOOK = None   # optional provenance-based equality (installed by symx.seq)
 
 
 def cur():
@@ -871,10 +872,22 @@ class SymInt:
         return SymBool(f(self.at(w), oe))
 
     def __eq__(self, o):
+        if o is self:
+            return True
+        if EQ_HOOK is not None:
+            h = EQ_HOOK(self, o)
+            if h is not None:
+                return h
         r = self._cmp(o, lambda a, b: a == b, False, False)
         return False if r is NotImplemented else r
 
     def __ne__(self, o):
+        if o is self:
+            return False
+        if EQ_HOOK is not None:
+            h = EQ_HOOK(self, o)
+            if h is not None:
+                return sym_not(h)
         r = self._cmp(o, lambda a, b: a != b, True, True)
         return True if r is NotImplemented else r
 
